@@ -9,6 +9,7 @@ import random as _real_random
 import secrets as _real_secrets
 import selectors as _real_selectors
 import socket as _real_socket
+import ssl as _real_ssl
 import sys
 import threading as _real_threading
 import time as _real_time
@@ -363,8 +364,20 @@ class _FakeModule(types.ModuleType):
         return getattr(self.__dict__["_real"], name)
 
 
-def _sock_factory(family=_real_socket.AF_INET, type=_real_socket.SOCK_STREAM, proto=0, fileno=None):
-    return simnet.SimSocket(world().net, family, type, proto)
+class _SockMeta(type):
+    def __instancecheck__(cls, obj):
+        # an SSLSocket is a socket.socket too
+        return isinstance(obj, simnet.SimSocket) or type(obj).__name__ == "SimTLSSocket"
+
+
+class _sock_factory(simnet.SimSocket, metaclass=_SockMeta):
+    """`socket.socket` as the library sees it: a class, so that `isinstance(sock, socket.socket)` works as it does on a
+    real socket."""
+
+    def __init__(self, family=_real_socket.AF_INET, type=_real_socket.SOCK_STREAM, proto=0, fileno=None):
+        if fileno is not None:
+            raise HarnessError("socket.socket(fileno=...) is not simulated")
+        super().__init__(world().net, family, type, proto)
 
 
 def _getaddrinfo(*a, **kw):
@@ -503,12 +516,25 @@ fake_secrets = _FakeModule(_real_secrets, {
     "SystemRandom": lambda *a, **kw: _sysrandom,
 })
 fake_uuid = _FakeModule(_real_uuid, {"uuid4": _uuid4})
+
+
+class _SSLSockMeta(type):
+    def __instancecheck__(cls, obj):
+        return type(obj).__name__ == "SimTLSSocket" or isinstance(obj, _real_ssl.SSLSocket)
+
+
+class _SimSSLSocketType(metaclass=_SSLSockMeta):
+    """`ssl.SSLSocket` as the library sees it: `isinstance(sock, ssl.SSLSocket)` is true for the simulated TLS socket."""
+
+
+fake_ssl = _FakeModule(_real_ssl, {"SSLSocket": _SimSSLSocketType})
 fake_inspect = _FakeModule(_real_inspect, {"stack": _stack})
 
 _MODULE_MAP = {
     id(_real_socket): fake_socket, id(_real_selectors): fake_selectors, id(_real_time): fake_time,
     id(_real_threading): fake_threading, id(_real_os): fake_os, id(_real_inspect): fake_inspect,
     id(_real_random): fake_random, id(_real_secrets): fake_secrets, id(_real_uuid): fake_uuid,
+    id(_real_ssl): fake_ssl,
 }
 _OBJ_MAP = {}
 for _real, _fake in ((_real_threading.Lock, SimLock), (_real_threading.RLock, SimRLock),
@@ -529,7 +555,8 @@ for _real, _fake in ((_real_threading.Lock, SimLock), (_real_threading.RLock, Si
                      (_real_selectors.PollSelector, _selector), (_real_selectors.EpollSelector, _selector),
                      (_real_secrets.token_bytes, _token_bytes), (_real_secrets.token_hex, _token_hex),
                      (_real_secrets.token_urlsafe, _token_urlsafe), (_real_secrets.randbits, _sysrandom.getrandbits),
-                     (_real_random.SystemRandom, fake_random.SystemRandom), (_real_uuid.uuid4, _uuid4)):
+                     (_real_random.SystemRandom, fake_random.SystemRandom), (_real_uuid.uuid4, _uuid4),
+                     (_real_ssl.SSLSocket, _SimSSLSocketType)):
     _OBJ_MAP[id(_real)] = _fake
 # the module-level functions of `random` are bound methods of one hidden instance: map each of them by identity too
 for _n in _PRNG_NAMES:
@@ -647,6 +674,93 @@ def _scan_class(cls, modname, seen):
     return n
 
 
+# ------------------------------------------------------------------------------- process-wide library state
+# A new world stands for a new process.  Whatever mutable state the library keeps at module or class level (caches,
+# memo tables, registries - none in the shipped code besides the cookie jar and a few flags, but a rework may add some)
+# is put back to what it was right after import, so that no run depends on the runs that happened to precede it in the
+# same worker: what such state does *within* one run (several connections of one scenario) is then seen reproducibly.
+_CONTAINERS = (dict, list, set, bytearray)
+_state = {"snap": None}
+
+
+def _lib_modules():
+    for name, mod in sorted(sys.modules.items()):
+        if mod is None or not _is_lib(name) or name.startswith("websocket.tests") or name == "websocket._wsdump":
+            continue
+        yield name, mod
+
+
+def _holders():
+    """(key, namespace dict or object) for every module and every class defined in a library module"""
+    for name, mod in _lib_modules():
+        yield (name,), mod, vars(mod)
+        for attr, val in sorted(vars(mod).items()):
+            if isinstance(val, type) and getattr(val, "__module__", None) == name:
+                yield (name, attr), val, vars(val)
+
+
+def snapshot_state():
+    import copy
+    snap = {}
+    for key, holder, ns in _holders():
+        for attr, val in list(ns.items()):
+            if attr.startswith("__"):
+                continue
+            if isinstance(val, _CONTAINERS):
+                try:
+                    snap[key + (attr,)] = ("c", copy.deepcopy(val))
+                except Exception:  # noqa - not copyable: left alone
+                    pass
+            elif hasattr(val, "cache_clear") and callable(val):
+                snap[key + (attr,)] = ("lru", None)
+        snap[key + ("",)] = ("names", frozenset(ns))
+    _state["snap"] = snap
+
+
+def restore_state():
+    import copy
+    snap = _state["snap"]
+    if snap is None:
+        return 0
+    n = 0
+    for key, holder, ns in _holders():
+        names = snap.get(key + ("",))
+        for attr, val in list(ns.items()):
+            if attr.startswith("__"):
+                continue
+            rec = snap.get(key + (attr,))
+            if rec is None:
+                if names is not None and attr not in names[1] and isinstance(val, _CONTAINERS):
+                    # a container created lazily after import (`global _cache; _cache = {}`)
+                    try:
+                        val.clear()
+                        n += 1
+                    except Exception:  # noqa
+                        pass
+                continue
+            kind, old = rec
+            if kind == "lru":
+                try:
+                    val.cache_clear()
+                except Exception:  # noqa
+                    pass
+            elif isinstance(val, _CONTAINERS) and type(val) is type(old):
+                if val != old:
+                    # in place: other references to the same object stay valid
+                    if isinstance(val, dict):
+                        val.clear()
+                        val.update(copy.deepcopy(old))
+                    elif isinstance(val, set):
+                        val.clear()
+                        val.update(copy.deepcopy(old))
+                    else:
+                        val[:] = copy.deepcopy(old)
+                    n += 1
+            elif isinstance(old, _CONTAINERS) and not isinstance(val, _CONTAINERS):
+                pass  # rebound to something else (None ...): the module-level flags are reset by the world itself
+    return n
+
+
 def set_accel(on):
     """Next install(): import the library with (True) or without (False) the stand-in for the optional `wsaccel` package."""
     _want["accel"] = bool(on)
@@ -751,6 +865,7 @@ def install():
     _installed["want"] = dict(_want)
     _installed["replaced"] = replaced
     _installed["trace_prefix"] = _real_os.path.dirname(wsfile) + _real_os.sep
+    snapshot_state()
     return ws
 
 
